@@ -247,6 +247,7 @@ INVARIANT TypeOK
 INVARIANT UnitSourceNeverMixed
 INVARIANT NormalizeLastUnmixes
 INVARIANT SameSphereWhenBothSupplied
+INVARIANT ShippedCentresSurvive
 INVARIANT Emit
 CHECK_DEADLOCK FALSE
 """
@@ -260,17 +261,52 @@ def prov_scenarios(ctx, max_pre):
         if isinstance(v, tuple) and len(v) == 2 and v[0] == "PROV":
             e = v[1]
             out.append({"nodes": e["nodes"], "centres": e["centres"], "radius": e["radius"], "hist": list(e["hist"]),
-                        "mixed": bool(e["mixed"]), "node_scale": e["node_scale"], "face_scale": e["face_scale"]})  # fmt: skip
+                        "mixed": bool(e["mixed"]), "node_scale": e["node_scale"], "face_scale": e["face_scale"],
+                        "offc": bool(e["offc"]), "dual_nodes_at": e["dual_nodes_at"]})  # fmt: skip
     if not out:
         raise Machinery("DualProv emitted no scenario")
-    out.sort(key=lambda p: (len(p["hist"]), p["hist"], p["nodes"], p["centres"], p["radius"]))
+    out.sort(key=lambda p: (len(p["hist"]), p["hist"], p["nodes"], p["centres"], p["radius"], p["offc"]))
     return out
 
 
 def with_prov(case, p, k, data=False):
-    tag = "n:%s,c:%s,R:%s,h:%s" % (p["nodes"], p["centres"], p["radius"], "+".join(p["hist"]) or "-")
+    tag = "n:%s,c:%s%s,R:%s,h:%s" % (p["nodes"], p["centres"], "(off)" if p["offc"] else "", p["radius"], "+".join(p["hist"]) or "-")
     c = dict(case, id="%s/prov=%s" % (case["id"], tag), prov=p, variant=k, data=data, centres="prov")
     return c
+
+
+DERIVE_CFG = """INIT Init
+NEXT Next
+CONSTANTS
+ ParentOps = {"node_faces", "get_dual", "centres", "edges"}
+ Kinds = {"n_face", "n_node", "n_edge"}
+ Patterns = {1, 2, 3}
+INVARIANT TypeOK
+INVARIANT HeldIsMonotone
+INVARIANT Emit
+CHECK_DEADLOCK FALSE
+"""
+
+
+def derive_scenarios(ctx):
+    """TLC enumerates parent history x selection dimension x pattern (DualDerive.tla)."""
+    r = ctx.tlc_ok("DualDerive", DERIVE_CFG, what="derived grids: parent history x isel dimension x pattern", workers=4, timeout=600)
+    out = []
+    for v in r.prints:
+        if isinstance(v, tuple) and len(v) == 2 and v[0] == "DERIVE":
+            e = v[1]
+            out.append({"ops": sorted(e["ops"]), "kind": e["kind"], "pat": int(e["pat"]), "held": bool(e["parent_held_node_faces"])})
+    if len(out) != 16 * 3 * 3:
+        raise Machinery("DualDerive emitted %d scenarios" % len(out))
+    out.sort(key=lambda d: (d["kind"], d["pat"], d["ops"]))
+    return out
+
+
+def with_derive(case, d, k):
+    tag = "%s:p%d:%s" % (d["kind"], d["pat"], "+".join(d["ops"]) or "-")
+    c = {x: case[x] for x in case if x not in ("expect", "prov")}
+    return dict(c, id="%s/isel=%s" % (case["id"], tag), derive=d, variant=k, data=False, centres="derived", closed=False,
+                check_ccw=True, n_qual=1, n_surrounded=1)  # fmt: skip
 
 
 def start_jit_off(ctx, cases):
@@ -390,7 +426,7 @@ def run(ctx):
     fams = [c for c in gen if c["closed"] and not c["renumbered"] and c["rot"] == 0]
     fams += [c for c in gen if not c["renumbered"] and c["rot"] == rots[0] and c["cut"] in (0, 5) and c["n_qual"] > 0 and c["name"] in ("pyramid7", "tetrakis_cube", "triakis_octahedron", "truncated_cube_split")]
     pcases, k = [], 0
-    for c in fams:
+    for c in (fams if thorough else fams[:15]):
         for p in plain:
             pcases.append(with_prov(c, p, k, data=(k % 7 == 0)))
             k += 1
@@ -409,10 +445,26 @@ def run(ctx):
     ctx.note("provenance_scenarios", {"scenarios": len(scen), "mixed_scale_at_get_dual": sum(p["mixed"] for p in scen),
                                       "cases": len(pcases), "families": len(fams)})  # fmt: skip
 
+    # derived primal grids (DualDerive.tla): isel on n_face / n_node / n_edge of a parent with a TLC-chosen history
+    dscen = derive_scenarios(ctx)
+    parents = [c for c in gen if c["closed"] and not c["renumbered"] and c["rot"] == 0 and len(c["faces"]) >= 12]
+    parents += [c for c in gen if c["closed"] and not c["renumbered"] and c["rot"] == rots[0] and c["name"] in ("tetrakis_cube", "pyramid8", "rhombicuboctahedron")]
+    dcases = []
+    for j, d in enumerate(dscen):
+        for t in range(6 if thorough else 2):
+            dcases.append(with_derive(parents[(j * 5 + t * 3) % len(parents)], d, j + t))
+    seen = set()
+    dcases = [c for c in dcases if not (c["id"] in seen or seen.add(c["id"]))]
+    cases += dcases
+    ctx.note("derived_grid_scenarios", {"scenarios": len(dscen), "parent_held_node_faces": sum(d["held"] for d in dscen),
+                                        "cases": len(dcases), "parents": len(parents)})  # fmt: skip
+
     # inputs beyond the enumerated scope (code -> spec)
     big = planar_cases(rng, 150 if thorough else 12, 14 if thorough else 9)
     big += planar_fine_cases(rng, 64 if thorough else 16, 9)
     big += [with_prov(c, scen[(5 * j + 2) % len(scen)], j) for j, c in enumerate(big)]
+    coarse = [c for c in big if "prov" not in c and not c.get("fine")]
+    big += [with_derive(coarse[j % len(coarse)], d, j) for j, d in enumerate(dscen) if j % (1 if thorough else 3) == 0]
     if thorough:
         for tag, path, kw in FILES:
             if os.path.exists(path):
@@ -462,6 +514,9 @@ def run(ctx):
             "fine": bool(c.get("fine")),
             "mixed_scale": bool((c.get("prov") or {}).get("mixed")),
             "radius": (c.get("prov") or {}).get("radius", "1"),
+            "shipped_off_centroid": bool((c.get("prov") or {}).get("offc")),
+            "derived": (c["derive"]["kind"] if "derive" in c else "no"),
+            "parent_held_node_faces": bool((c.get("derive") or {}).get("held")),
         }
 
     def replay_of(rid):
